@@ -561,7 +561,7 @@ func Run(c Case) (res Result, sig string, err error) {
 				return res, "no-echo", fmt.Errorf("no echo reply after mutate")
 			}
 			if !sock.WaitFor(10*time.Second, func(outs []fakesock.Out) bool {
-				for _, o := range outs {
+				for _, o := range outs[mOut0:] {
 					if o.ID == id && (o.Type == "result" || (o.Type == "error")) {
 						return true
 					}
@@ -592,7 +592,7 @@ func Run(c Case) (res Result, sig string, err error) {
 					}
 					rej := false
 					for _, o := range sock.Outs()[p0:] {
-						if o.ID == id && o.Type == "error" {
+						if m, _ := o.Msg.(string); o.ID == id && o.Type == "error" && (m == "duplicate subscription" || m == "too many subscriptions") {
 							rej = true
 						}
 					}
